@@ -436,6 +436,8 @@ class Device(device.Device):
                     log.debug("send SEL_REQ %s", hexlify(sel_req).decode())
                     sel_res = self.chipset.in_comm_rf(sel_req, 30)
                     log.debug("rcvd SEL_RES %s", hexlify(sel_res).decode())
+                    if len(sel_res) != 1:
+                        return None
                 uid = target.sel_req
             else:
                 uid = bytearray()
@@ -450,6 +452,8 @@ class Device(device.Device):
                     log.debug("send SEL_REQ %s", hexlify(sel_req).decode())
                     sel_res = self.chipset.in_comm_rf(sel_req, 30)
                     log.debug("rcvd SEL_RES %s", hexlify(sel_res).decode())
+                    if len(sel_res) != 1:
+                        return None
                     if sel_res[0] & 0b00000100:
                         uid = uid + sdd_res[1:4]
                     else:
@@ -621,7 +625,10 @@ class Device(device.Device):
                     brty = ('106A', '212F', '424F')[data[0]-11]
                     log.debug("%s rcvd %s", brty,
                               hexlify(memoryview(data)[7:]).decode())
-                    if brty == "106A" and data[2] == 3 and data[7] == 0xE0:
+                    if len(data) < 8:
+                        log.debug("no data received")
+                    elif ((brty == "106A" and data[2] == 3 and
+                           data[7] == 0xE0 and len(data) > 8)):
                         (rats_cmd, rats_res) = (data[7:], target.rats_res)
                         log.debug("rcvd RATS_CMD %s",
                                   hexlify(rats_cmd).decode())
@@ -648,7 +655,8 @@ class Device(device.Device):
                                 len(ta_tb_tc), hexlify(ta_tb_tc).decode()))
                         did_supported = tc is None or bool(tc & 0x02)
                         cmd_with_did = bool(cmd[0] & 0x08)
-                        if (((cmd_with_did and did_supported and cmd[1] == did)
+                        if (((cmd_with_did and did_supported
+                              and cmd[1:2] == bytearray([did]))
                              or (did == 0 and not cmd_with_did))):
                             if cmd[0] in (0xC2, 0xCA):
                                 log.debug("rcvd S(DESELECT) %s",
